@@ -1424,10 +1424,6 @@ class StorageBackendBase(StorageBackend, ABC):
         if self.read_only:
             return
 
-        if self._memory_cache:
-            # Write through to memory cache
-            self._memory_cache.put(memento, result, has_result=True)
-
         # Write data
         result_type = memento.invocation_metadata.result_type
         content_key = self.codec.store(
@@ -1439,6 +1435,12 @@ class StorageBackendBase(StorageBackend, ABC):
 
         # Write metadata
         self._metadata_source.put_memento(memento)
+
+        if self._memory_cache:
+            # Write through to memory cache, once the store holds the result: if a write
+            # failed, the cache must not report the call as memoized (it would never be
+            # written again)
+            self._memory_cache.put(memento, result, has_result=True)
 
     def read_metadata(
         self,
